@@ -93,6 +93,7 @@ def render(reader: io.Reader, writer: io.Writer) -> bool:
 def renderList(item: ItemInfo, reader: io.Reader, writer: io.Writer) -> Optional[ItemInfo]:
     ids.append(item.id)
     writer.write(blockattributes.injectHtmlAttributes(item.listdef.listOpenTag))
+    blockattributes.opts = Expand()  # Pending block options end here too, they are not kept for a later block.
     nextItem: Optional[ItemInfo]
     while True:
         nextItem = renderListItem(item, reader, writer)
